@@ -8,8 +8,9 @@
      tsdl_of_x      vs the parsed real metadata file,
      ser / tracer   vs the bytes produced by the compiled generated C,
      dec_x          applied to the REAL packets with the REAL parsed metadata (oracle).
-   Positions and sizes are unbounded nat: the uint32_t wrap-around of ctx->at (needs >= 512 MiB of
-   payload in one record, S12 in DESIGN.md) is outside the model. *)
+   Positions and sizes are unbounded nat here; the uint32_t arithmetic of the real size pass is
+   Layout/Wrap32.v (size_op32), related to size_op by Layout/Wrap32Proofs.v (equal modulo 2^32,
+   hence equal below 2^32; S12 in DESIGN.md needs >= 512 MiB of payload in one record). *)
 From Coq Require Import List Arith Bool ZArith String.
 Import ListNotations.
 From BT.Base Require Import Bits.
